@@ -243,3 +243,6 @@ MANIFEST_TEXT["C17"] = {
     "level_note": "Client is an independent minimal HTTP/1.1 implementation; JSON float comparison tolerates the client parser's last-bit error.",
     "technique": "runtime differential monitor HTTP vs embedded API + error-status / continued-service monitor",
 }
+
+META["C05"] = {"level": "exploration", "rule": "placeholder", "budget": {"quick": 100, "thorough": 900}, "relfast": True, "floors": {"quick": {"evaluations": 1500, "distinct": 20}}, "assumptions": COMMON_ASSUMPTIONS + TOL}
+META["C06"] = {"level": "exploration", "rule": "placeholder", "budget": {"quick": 100, "thorough": 900}, "relfast": True, "floors": {"quick": {"evaluations": 1500, "distinct": 20}}, "assumptions": COMMON_ASSUMPTIONS + TOL}
